@@ -634,7 +634,29 @@ def run(prop, tier, seed, replay=None):
         shutil.rmtree(wd, ignore_errors=True)
     conc_th.join()
     conc_evaluate(ck, conc)
+    if not ck.violations:
+        fallback_pass(ck)
     return ck.finish()
+
+
+def fallback_pass(ck):
+    """the byte-stream oracle on a conn that has left shared memory (harness/zz_netfallback_test.go)"""
+    job = {'wait_ms': 15000, 'seed': ck.seed}
+    g = gorun.run_harness('^TestVS_NetFallback$', ['zz_netfallback_test.go'], None, inputs={'job': job}, timeout=600)
+    r = g.result
+    if r is None:
+        if 'panic:' in g.out or 'fatal error:' in g.out:
+            m = re.search(r'(panic: .*|fatal error: .*)', g.out)
+            ck.violation('the process dies on a fallback conn: %s' % (m.group(1)[:200] if m else ''), {'kind': 'netfallback'})
+        else:
+            ck.notes.append('fallback pass produced no result (rc=%s): %s' % (g.rc, g.out[-300:]))
+        return
+    for v in r['violations'][:1]:
+        ck.violation('%s (%s): %s' % (v['kind'], v['scenario'], v['detail']), {'kind': 'netfallback', 'scenario': v['scenario']})
+    ck.cov['fallback_conn_histories'] = len(r['done'])
+    ck.cov['fallback_conn_bytes_compared'] = r['bytes']
+    ck.cov['fallback_conn_not_realised'] = r['not_realised'][:4]
+    ck.add('evaluations', len(r['done']))
 
 
 def conc_evaluate(ck, conc):
@@ -789,6 +811,11 @@ def do_replay(ck, path, listed):
     rep = json.load(open(path))
     if rep.get('kind') == 'conc':
         return do_replay_conc(ck, rep, path)
+    if rep.get('kind') == 'netfallback':
+        ck.cov['evaluations'] = 0
+        ck.cov['distinct_nontrivial'] = 1
+        fallback_pass(ck)
+        return ck.finish()
     p = rep['path']
     # the design verdict that goes with a replay: the smallest configuration, checked in this run
     tr = tlc.run('NetListener', 'mc.cfg', timeout=300, workers=TLC_WORKERS, extra_files={'mc.cfg': gcfg(QUICK_GRAPHS[0])})
